@@ -121,6 +121,8 @@ def subj_selector(b, kind, pattern):
         elif r < 0.7:
             p["initialize"] = "random"
             p["random_state"] = rng.randrange(100)
+            if rng.random() < 0.3:
+                p["random_state"] = {"$npint": p["random_state"], "dtype": "int64"}
         elif fam == "fps":
             k = rng.randint(1, min(N, 3))
             ia = b.add({"kind": "index", "n": lim, "k": k, "seed": _seed(rng)}, "index_list", "C")
@@ -348,6 +350,8 @@ def subj_ridge(b, kind, pattern):
     if r < 0.35 or pattern == "repeat":
         p["shuffle"] = True
         p["random_state"] = rng.randrange(1000)
+        if rng.random() < 0.3:
+            p["random_state"] = {"$npint": p["random_state"], "dtype": rng.choice(["int64", "int32"])}
     elif r < 0.55:
         p["shuffle"] = False
     fitA = {"X": b.ref(XA, "data"), "y": b.ref(b.y_of(XA, pdim, squeeze=False), "target")}
